@@ -378,6 +378,11 @@ class _RangeWrapper:
     def _next_chunk(self) -> bytes:
         try:
             chunk = next(self.iterable)
+
+            # A response body may yield text, the range counts encoded bytes.
+            if isinstance(chunk, str):
+                chunk = chunk.encode()
+
             self.read_length += len(chunk)
             return chunk
         except StopIteration:
